@@ -158,6 +158,9 @@ func (s *slicer) visit(v ssa.Value, depth int) {
 		if s.fieldStop && baseAlloc(x) == nil {
 			if k := fieldKey(x); s.c.ephemeralField(k) {
 				for _, st := range s.c.fieldStores()[k] {
+					if isModuleStructPtr(st.Val.Type()) {
+						continue // a handle on a long-lived object, not data: what is read from it is accounted for at the read
+					}
 					s.visit(st.Val, depth)
 				}
 			}
@@ -263,6 +266,17 @@ func baseAlloc(addr ssa.Value) *ssa.Alloc {
 
 func (s *slicer) load(u *ssa.UnOp, depth int) {
 	addr := u.X
+	if fa, ok := addr.(*ssa.FieldAddr); ok {
+		if a, isAlloc := fa.X.(*ssa.Alloc); isAlloc {
+			// a field of a local struct: only what is stored into that field matters (below), not its sibling fields
+			for _, v := range []ssa.Value{fa, a} {
+				if !s.seen[v] {
+					s.seen[v] = true
+					s.order = append(s.order, v)
+				}
+			}
+		}
+	}
 	s.visit(addr, depth)
 	if a := baseAlloc(addr); a != nil {
 		// precise for the exact sub-address when it is a field of a local struct
@@ -289,6 +303,9 @@ func (s *slicer) load(u *ssa.UnOp, depth int) {
 			// a helper struct whose address is handed to its methods (a collector, a builder): they store into the field too
 			if k := fieldKey(fa); s.c.ephemeralField(k) {
 				for _, st := range s.c.fieldStores()[k] {
+					if s.fieldStop && isModuleStructPtr(st.Val.Type()) {
+						continue
+					}
 					s.visit(st.Val, depth)
 				}
 			}
